@@ -116,6 +116,15 @@ Theorem C06_keyexists_empty_step : forall s r id kvs k, reg_obj s r = Some (id, 
   step_core s (OEmpty r) = (s, Ret (OB (Nat.eqb (length kvs) 0))).
 Proof. exact keyexists_empty_count_step. Qed.
 
+(* Clear never panics; afterwards EVERY register that aliases the receiver reads the empty object; every other cell, the heap size and
+   the environment are untouched *)
+Theorem C06_clear_step : forall s r id kvs, reg_obj s r = Some (id, kvs) ->
+  let s' := fst (step_core s (OClear r)) in
+  snd (step_core s (OClear r)) = Ret ONone /\ st_env s' = st_env s /\
+  (forall r', nth_error (st_env s) r' = Some (HO id) -> reg_obj s' r' = Some (id, [])) /\
+  (forall j, j <> id -> nth_error (st_heap s') j = nth_error (st_heap s) j) /\ length (st_heap s') = length (st_heap s).
+Proof. exact oclear_step. Qed.
+
 Print Assumptions C06_set.
 Print Assumptions C06_set_lookup.
 Print Assumptions C06_set_odd_panics.
@@ -139,3 +148,4 @@ Print Assumptions C06_new_from_leaf_by_reference.
 Print Assumptions C06_typed_programs_never_ill_typed.
 Print Assumptions C06_keyof_step.
 Print Assumptions C06_keyexists_empty_step.
+Print Assumptions C06_clear_step.
